@@ -230,7 +230,8 @@ def gen_fontfile(rng: random.Random, style: str = "array", traps: bool = False) 
     for c in codes:
         entries.append([c, glyph_name(rng, traps)[1]])
     return {"style": style, "entries": entries, "eol": rng.choice(["\n", "\n", "\r", "\r\n"]),
-            "noise": rng.random() < 0.5, "info_first": rng.random() < 0.7}
+            "noise": rng.random() < 0.5, "info_first": rng.random() < 0.7, "oneline": rng.random() < 0.2,
+            "flate": rng.random() < 0.5}
 
 
 T3_SCALES = [0.001, 0.002, 0.0005, 0.01, 0.00048828125, 0.0125, 0.000244140625, 1.0, 0.004]
@@ -249,12 +250,16 @@ def gen_case(rng: random.Random, family: str) -> Dict[str, Any]:
     def enc_any(allow_nobase: bool, traps: bool = False, overlap: bool = False, force_dict: bool = False):
         r = rng.random()
         if r < 0.3 and not force_dict:
-            return {"kind": "name", "name": rng.choice(ENC_NAMES)}
+            return {"kind": "name", "name": rng.choice(ENC_NAMES), "indirect": rng.random() < 0.2}
         bases = ["MacRomanEncoding", "WinAnsiEncoding", "MacRomanEncoding", "WinAnsiEncoding"]
         if allow_nobase:
             bases.append(None)
             bases.append(None)
-        return {"kind": "dict", "base": rng.choice(bases), "diff": gen_diff(rng, traps, overlap)}
+        diff = gen_diff(rng, traps, overlap)
+        if rng.random() < 0.04 and not (traps or overlap):
+            diff = []  # a dictionary with /BaseEncoding only (or an empty Differences array)
+        return {"kind": "dict", "base": rng.choice(bases), "diff": diff, "indirect": rng.random() < 0.3,
+                "omit_empty": rng.random() < 0.5}
 
     if family in ("std14", "std14_tu"):
         c["subtype"] = "Type1"
@@ -420,8 +425,9 @@ def expected(case: Dict[str, Any]) -> List[Dict[str, Any]]:
             else:
                 glyphw, wsrc = (w["missing"] if w["missing"] is not None else 0), "missing" if w["missing"] is not None else "missing_default"
             if case["subtype"] == "Type3":
+                # 9.2.4 / 9.6.5: the glyph-space displacement (w, 0) goes through FontMatrix: x component a*w
                 adv = glyphw * case["matrix"][0] * size
-                wsrc = "type3_" + wsrc
+                wsrc = ("type3_shear_" if case["matrix"][2] else "type3_") + wsrc
             else:
                 adv = glyphw / 1000.0 * size
         res.append({"text": text, "tsrc": tsrc, "adv": adv, "wsrc": wsrc})
@@ -483,8 +489,10 @@ def type1_program(ff: Dict[str, Any], fontname: str) -> Tuple[bytes, int, int, i
     else:
         encl.append(b"/Encoding 256 array")
         encl.append(b"0 1 255 {1 index exch /.notdef put} for")
-        for code, nm in ff["entries"]:
-            encl.append(b"dup %d /%s put" % (code, nm.encode("ascii")))
+        ents = [b"dup %d /%s put" % (code, nm.encode("ascii")) for code, nm in ff["entries"]]
+        if ff.get("oneline") and ents:
+            ents = [b" ".join(ents[k:k + 4]) for k in range(0, len(ents), 4)]  # several entries per line
+        encl += ents
         encl.append(b"readonly def")
     rest = [b"/FontName /" + fontname.encode() + b" def", b"/PaintType 0 def", b"/FontType 1 def",
             b"/FontMatrix [0.001 0 0 0.001 0 0] readonly def", b"/FontBBox {-100 -250 1100 900} readonly def",
@@ -546,12 +554,14 @@ def font_object(case: Dict[str, Any], doc: pdfw.Doc) -> Dict[str, Any]:
     d: Dict[str, Any] = {"Type": N("Font"), "Subtype": N(case["subtype"])}
     enc = case["enc"]
     if enc["kind"] == "name":
-        d["Encoding"] = N(enc["name"])
+        d["Encoding"] = doc.add(N(enc["name"])) if enc.get("indirect") else N(enc["name"])
     elif enc["kind"] == "dict":
         ed: Dict[str, Any] = {"Type": N("Encoding")}
         if enc["base"]:
             ed["BaseEncoding"] = N(enc["base"])
-        ed["Differences"] = [x if isinstance(x, int) else N(x) for x in enc["diff"]]
+        if enc["diff"] or not enc.get("omit_empty"):
+            da: Any = [x if isinstance(x, int) else N(x) for x in enc["diff"]]
+            ed["Differences"] = doc.add(da) if enc.get("indirect") else da
         d["Encoding"] = doc.add(ed) if len(enc["diff"]) % 2 == 0 else ed
     if case["tounicode"]:
         d["ToUnicode"] = doc.add(tounicode_stream(case["tounicode"]))
@@ -597,23 +607,33 @@ def font_object(case: Dict[str, Any], doc: pdfw.Doc) -> Dict[str, Any]:
         fd["MissingWidth"] = w["missing"]
     if case["fontfile"]:
         data, l1, l2, l3 = type1_program(case["fontfile"], case["basefont"].replace("+", ""))
-        fd["FontFile"] = doc.add(Stream({"Length1": l1, "Length2": l2, "Length3": l3}, data))
+        sd: Dict[str, Any] = {"Length1": l1, "Length2": l2, "Length3": l3}
+        if case["fontfile"].get("flate"):
+            sd["Filter"] = N("FlateDecode")
+            data = zlib.compress(data)
+        fd["FontFile"] = doc.add(Stream(sd, data))
     d["FontDescriptor"] = doc.add(fd)
     return d
 
 
-def build_doc(cases: List[Dict[str, Any]], xref: str = "table", pack: bool = False) -> bytes:
+def build_doc(cases: List[Dict[str, Any]], xref: str = "table", pack: bool = False,
+              pages_of: Optional[List[int]] = None) -> bytes:
+    """One page per entry of `pages_of` (indices into `cases`, default one page per case in order); a case that
+    is shown on several pages is ONE font object referenced by all of them."""
     doc = pdfw.Doc()
     pages = []
     fontids: List[int] = []
-    for case in cases:
-        fo = font_object(case, doc)
-        if case["direct"]:
-            fref: Any = fo
-        else:
-            fref = doc.add(fo)
-            fontids.append(fref.n)
-        pages.append({"content": content_stream(case), "resources": {"Font": {"F1": fref}}})
+    frefs: Dict[int, Any] = {}
+    for idx in (pages_of if pages_of is not None else range(len(cases))):
+        case = cases[idx]
+        if idx not in frefs:
+            fo = font_object(case, doc)
+            if case["direct"]:
+                frefs[idx] = fo
+            else:
+                frefs[idx] = doc.add(fo)
+                fontids.append(frefs[idx].n)
+        pages.append({"content": content_stream(case), "resources": {"Font": {"F1": frefs[idx]}}})
     pdfw.page_doc(pages, doc=doc)
     if xref == "stream":
         return doc.build(xref="stream", objstm=fontids if pack else None)
